@@ -330,7 +330,9 @@ def run_property(prop, tier, seed, root):
         tail = "" if f.reproduced else " no-failing-input-found"
         lines.append(f"VIOLATION property={prop} replay={path} obligation={f.detail['obligation']}{tail}")
     status = 0
-    if errors or counts["obligations"] == 0 and selected:
+    if any(f.reproduced for f in violations):
+        status = 1      # a failing input replayed on the real code stands, whatever else went wrong in the run
+    elif errors or counts["obligations"] == 0 and selected:
         status = 3
     elif violations:
         status = 1
